@@ -1,8 +1,10 @@
 // C07: no sequence of API calls writes outside the attached buffer (guard pages + canaries + model of the
 //      documented 20-byte reserve rule).   C08: the library-managed buffer grows transparently.
+#include "fault/wrap.h"
 #include "prog.hpp"
 #include "props.hpp"
 #include <sys/mman.h>
+extern "C" struct alw_ctl alw __attribute__((weak));
 
 using namespace prog;
 
@@ -129,29 +131,35 @@ void prop_c07(hz::Ctx &ctx) {
 }
 
 // ================================================================= C08
-struct C08Case { int q = 1, delta = 0, mode = 0, cidx = 7, combo = DEFAULT_COMBO, ncalls = 1; bool safe = true; uint64_t seed = 1, poolseed = 1; bool reassemble = false; };
-static std::string ser08(const C08Case &c) { char b[200]; snprintf(b, sizeof b, "C08|%llu|%llu|%d|%d|%d|%d|%d|%d|%d|%d", (unsigned long long)c.poolseed, (unsigned long long)c.seed, c.q, c.delta, c.mode, c.cidx, c.combo, c.ncalls, c.safe, c.reassemble); return b; }
-static bool parse08(const std::string &s, C08Case &c) { auto f = split(s, '|'); if (f.size() != 11 || f[0] != "C08") return false; c.poolseed = strtoull(f[1].c_str(), nullptr, 10); c.seed = strtoull(f[2].c_str(), nullptr, 10); c.q = atoi(f[3].c_str()); c.delta = atoi(f[4].c_str()); c.mode = atoi(f[5].c_str()); c.cidx = atoi(f[6].c_str()); c.combo = atoi(f[7].c_str()); c.ncalls = atoi(f[8].c_str()); c.safe = f[9] == "1"; c.reassemble = f[10] == "1"; return true; }
-static std::string text08(const C08Case &c) { char b[240]; snprintf(b, sizeof b, "internal buffer: program of about %d bytes (%s lines) in %d call(s), mode %s chunk %d%s", c.q * 6000 + c.delta, c.safe ? "executable" : "pool", c.ncalls, c.mode == 0 ? "plain" : c.mode == 1 ? "fitting" : "counting", CHUNKS7[c.cidx % 13], c.reassemble ? ", then re-assembly at an earlier offset" : ""); return b; }
+struct C08Case { int q = 1, delta = 0, mode = 0, cidx = 7, combo = DEFAULT_COMBO, ncalls = 1; bool safe = true; uint64_t seed = 1, poolseed = 1; bool reassemble = false;
+  int family = 0;   /* 1: (q*6000 - delta) one-byte nops, then one instruction of the pool, then the tail: probes the growth threshold exactly */
+  int chunkv = -1;  /* explicit chunk size (family 1) */ bool split_tail = false; /* the last call is exactly the tail */ };
+static std::string ser08(const C08Case &c) { char b[240]; snprintf(b, sizeof b, "C08|%llu|%llu|%d|%d|%d|%d|%d|%d|%d|%d:%d:%d:%d", (unsigned long long)c.poolseed, (unsigned long long)c.seed, c.q, c.delta, c.mode, c.cidx, c.combo, c.ncalls, c.safe, c.reassemble, c.family, c.chunkv, c.split_tail); return b; }
+static bool parse08(const std::string &s, C08Case &c) { auto f = split(s, '|'); if (f.size() != 11 || f[0] != "C08") return false; c.poolseed = strtoull(f[1].c_str(), nullptr, 10); c.seed = strtoull(f[2].c_str(), nullptr, 10); c.q = atoi(f[3].c_str()); c.delta = atoi(f[4].c_str()); c.mode = atoi(f[5].c_str()); c.cidx = atoi(f[6].c_str()); c.combo = atoi(f[7].c_str()); c.ncalls = atoi(f[8].c_str()); c.safe = f[9] == "1"; { auto g = split(f[10], ':'); c.reassemble = g[0] == "1"; c.family = g.size() > 1 ? atoi(g[1].c_str()) : 0; c.chunkv = g.size() > 2 ? atoi(g[2].c_str()) : -1; c.split_tail = g.size() > 3 && g[3] == "1"; } return true; }
+static std::string text08(const C08Case &c) { char b[300]; snprintf(b, sizeof b, "internal buffer: %s of about %d bytes (%s lines) in %d call(s)%s, mode %s chunk %d%s", c.family == 1 ? "nops up to the growth threshold then one instruction," : "program", c.q * 6000 + (c.family == 1 ? -c.delta : c.delta), c.safe ? "executable" : "pool", c.ncalls, c.split_tail ? " + the tail as a separate call" : "", c.mode == 0 ? "plain" : c.mode == 1 ? "fitting" : "counting", c.chunkv >= 0 ? c.chunkv : CHUNKS7[c.cidx % 13], c.reassemble ? ", then re-assembly at an earlier offset" : ""); return b; }
 
 struct GV { bool ok = true; std::string symptom, detail; int growths = 0; bool near = false; };
 static GV check08(const Pool &P, const C08Case &c) {
+  if (&alw != nullptr) alw.force_move = 1;   // every growth relocates the buffer: a stale pointer into the old mapping faults
   GV v; auto bad = [&](const std::string &s, const std::string &d) { v.ok = false; v.symptom = s; v.detail = d; return v; };
   hz::Rng r(c.seed); const std::vector<std::string> &src = c.safe ? P.safe : P.lines;
   long long target = (long long)c.q * 6000 + c.delta; uint64_t retval = r.next();
   char tailb[80]; snprintf(tailb, sizeof tailb, "mov rax, 0x%016llx", (unsigned long long)retval); std::vector<std::string> tail = {tailb, "ret"};
   long long taillen = (long long)solo(tail[0], c.combo).size() + 1;
   std::vector<std::string> lines; long long total = 0;
+  if (c.family == 1) { // nops up to a position just below the threshold, then one longer instruction
+    long long nn = (long long)c.q * 6000 - c.delta; for (long long i = 0; i < nn; i++) lines.push_back("nop"); total = nn;
+    const std::string &l = src[r.below(src.size())]; lines.push_back(l); total += solo(l, c.combo).size(); target = total + taillen; }
   while (total < target - taillen - 20) { const std::string &l = src[r.below(src.size())]; auto b = solo(l, c.combo); if (b.empty() || total + (long long)b.size() > target - taillen) continue; lines.push_back(l); total += b.size(); }
   while (total < target - taillen) { lines.push_back("nop"); total += 1; }
   lines.push_back(tail[0]); lines.push_back(tail[1]);
   // split into calls at line boundaries
-  std::vector<size_t> cuts; for (int i = 1; i < c.ncalls; i++) cuts.push_back(1 + r.below(lines.size() - 1)); std::sort(cuts.begin(), cuts.end()); cuts.push_back(lines.size());
+  std::vector<size_t> cuts; for (int i = 1; i < c.ncalls; i++) cuts.push_back(1 + r.below(lines.size() - 1)); if (c.split_tail) cuts.push_back(lines.size() - 2); std::sort(cuts.begin(), cuts.end()); cuts.push_back(lines.size());
   size_t N = 1 << 20; std::vector<uint8_t> ext(N, 0xcc);
   assemblyline_t in = asm_create_instance(nullptr, 0), ex = asm_create_instance(ext.data(), (int)N);
   if (!in) { asm_destroy_instance(ex); return bad("create", "asm_create_instance(NULL, 0) returned NULL"); }
   al::apply_opts(in, combo_opts(c.combo)); al::apply_opts(ex, combo_opts(c.combo));
-  int cs = CHUNKS7[c.cidx % 13]; if (c.mode == 1) { asm_set_chunk_size(in, cs); asm_set_chunk_size(ex, cs); }
+  int cs = c.chunkv >= 0 ? c.chunkv : CHUNKS7[c.cidx % 13]; if (c.mode == 1) { asm_set_chunk_size(in, cs); asm_set_chunk_size(ex, cs); }
   size_t li = 0; int call = 0;
   auto compare = [&](const std::string &when) -> bool {
     int oi = asm_get_offset(in), oe = asm_get_offset(ex);
@@ -202,10 +210,18 @@ void prop_c08(hz::Ctx &ctx) {
   // systematic: every total length in q*6000 +- 40 for q = 1..5 (thorough) / stride 3 (quick), modes rotating
   int stride = ctx.thorough() ? 1 : 3;
   for (int q = 1; q <= 5; q++) for (int d = -40; d <= 40; d += stride) for (int mode = 0; mode < 3; mode++) {
-    if (!ctx.take()) continue; C08Case c; c.q = q; c.delta = d + (int)(ctx.seed % stride); c.mode = mode; c.cidx = 5 + (q + d + 40) % 6; c.combo = (q * 5 + d + 40 + mode) % 12; c.ncalls = 1 + (d + 40) % 4; c.safe = (d & 1) == 0 || mode == 1; c.seed = ctx.seed * 977 + q * 131 + (d + 40) * 7 + mode; c.poolseed = ctx.seed; c.reassemble = (d + q) % 5 == 0;
+    if (!ctx.take()) continue; C08Case c; c.q = q; c.delta = d + (int)(ctx.seed % stride); c.mode = mode; c.cidx = 5 + (q + d + 40) % 6; c.combo = (q * 5 + d + 40 + mode) % 12; c.ncalls = 1 + (d + 40) % 4; c.safe = (d & 1) == 0 || mode == 1; c.seed = ctx.seed * 977 + q * 131 + (d + 40) * 7 + mode; c.poolseed = ctx.seed; c.reassemble = (d + q) % 5 == 0; c.split_tail = (d + q + mode) % 3 == 0;
     run(c, "part:systematic-lengths", false);
   }
-  auto gen_case = rc::gen::apply([&](int q, int d, int mode, int cidx, int combo, int ncalls, bool safe, int seed, bool re) { C08Case c; c.q = q; c.delta = d; c.mode = mode; c.cidx = cidx; c.combo = combo; c.ncalls = ncalls; c.safe = safe; c.seed = (uint64_t)seed; c.poolseed = ctx.seed; c.reassemble = re; return c; },
+  // threshold family: fitting with chunk sizes that put a boundary just behind a multiple of 6000, and plain/counting
+  {
+    static const int CH[] = {3, 7, 9, 11, 13, 14, 17, 19, 23, 29, 38, 100, 1001}; int step = ctx.thorough() ? 1 : 2;
+    for (int q = 1; q <= 3; q++) for (int ci = 0; ci < 13; ci++) for (int d = 0; d <= 15; d += step) for (int var = 0; var < (ctx.thorough() ? 3 : 1); var++) {
+      if (!ctx.take()) continue; C08Case c; c.family = 1; c.q = q; c.delta = d + (int)((ctx.seed + ci) % step); c.mode = (ci + d + var) % 4 == 3 ? ((d & 1) ? 0 : 2) : 1; c.chunkv = CH[ci]; c.combo = (q + ci + d) % 12; c.ncalls = 1 + (d % 2); c.safe = true; c.seed = ctx.seed * 31 + q * 1000 + ci * 50 + d + var * 7919; c.poolseed = ctx.seed; c.split_tail = (d + ci) % 3 == 0;
+      run(c, "part:threshold-family", false);
+    }
+  }
+  auto gen_case = rc::gen::apply([&](int q, int d, int mode, int cidx, int combo, int ncalls, bool safe, int seed, bool re) { C08Case c; c.q = q; c.delta = d; c.mode = mode; c.cidx = cidx; c.combo = combo; c.ncalls = ncalls; c.safe = safe; c.seed = (uint64_t)seed; c.poolseed = ctx.seed; c.reassemble = re; c.split_tail = (seed & 3) == 0; return c; },
     range(1, 6), range(-3000, 3001), range(0, 3), range(0, 13), range(0, 12), range(1, 9), rc::gen::arbitrary<bool>(), range(0, 1 << 30), rc::gen::arbitrary<bool>());
   rc_rounds(ctx, "C08-programs", ctx.thorough() ? 30000 : 4000, 100, [&]() { C08Case c = *gen_case; run(c, "part:random", true); }, 100);
 }
